@@ -1092,6 +1092,8 @@ class JobTerminationMonitor(Monitor):
                 continue
             for inst in w.live():
                 view = vws.get(inst.nick)
+                if rec['audience'].get(inst.nick) != inst.inc:
+                    continue
                 if view is None or view['instance_states'].get(sender.identifier) != 'RUNNING' or \
                         vws[rec['sender']]['instance_states'].get(inst.identifier) != 'RUNNING' or \
                         view['state'] not in ('DISTRIBUTION', 'OPERATION', 'CONCILIATION'):
@@ -1115,6 +1117,20 @@ class JobTerminationMonitor(Monitor):
                                  f"{info['statename']} two ticks later, with no event of that process in between",
                                  case=self.run.describe())
 
+    def audience(self, inst):
+        w = self.run.world
+        try:
+            infos = peek(w, inst.nick, 'supvisors.get_all_instances_info')
+        except Fault:
+            return {}
+        out = {}
+        for info in infos:
+            nick = w.by_identifier.get(info['identifier'])
+            other = w.instances.get(nick)
+            if info['statename'] in ('CHECKED', 'RUNNING') and other is not None and other.alive:
+                out[nick] = other.inc
+        return out
+
     def check_premature(self, inst, rec):
         """ A job is only abandoned once the margin has elapsed: not while the process is truly STOPPING for less than
         stopwaitsecs (Supervisor kills it then), nor truly STARTING for less than startsecs. """
@@ -1135,7 +1151,15 @@ class JobTerminationMonitor(Monitor):
                          f"although it has been STOPPING for {round(w.now - since, 2)}s only (stopwaitsecs "
                          f"{prog.get('stopwaitsecs')})", case=self.run.describe())
         elif rec['state'] == 200 and truth == 10 and w.now - since < prog.get('startsecs', 0) - 0.01:
-            self.violate('C10/start-given-up-before-startsecs',
+            mech = ''
+            older = [r for r in self.tracker.requests if r['sender'] == inst.nick and r['inc'] == inst.inc and
+                     r['namespec'] == namespec and w.now - r['t'] > self.bound['start'] * TICK]
+            if prog.get('wait_exit') and older:
+                # the command of a wait_exit program stays in the Starter until the exit; when the process is started
+                # again meanwhile (Supervisor autorestart, user), its new STARTING phase is timed against the tick
+                # counter of the original request
+                mech = ':wait-exit-command-timed-against-its-original-request'
+            self.violate('C10/start-given-up-before-startsecs' + mech,
                          f"{inst.nick} gave up the start of {namespec} on {target} at vt={vt(w)} ({rec['reason']}) "
                          f"although it has been STARTING for {round(w.now - since, 2)}s only (startsecs "
                          f"{prog.get('startsecs')})", case=self.run.describe())
@@ -1191,7 +1215,10 @@ class JobTerminationMonitor(Monitor):
                  'target': rec['target'], 'event_time': rec['event_time'],
                  'reason': rec['reason'], 'vt': vt(w), 'check_at': w.now + 2 * TICK,
                  # an event produced shortly before may still be in flight and will legitimately take over
-                 'overtaken': recent}
+                 'overtaken': recent,
+                 # who the forced state is published to: the instances the sender sees admitted at that moment (a
+                 # later joiner loads the real states, forced states are not part of the snapshot)
+                 'audience': self.audience(inst)}
         self.pending_forced.append(entry)
 
     def on_event(self, ev):
